@@ -301,7 +301,13 @@ def family():
 
     def cf_sql(field, sql, value, *attrs):
         return dict(cf(field, value, *attrs), initial_sql=sql)
+    rel = lambda field, ftype, initial: {'t': 'AddField', 'model': 'Alpha', 'field': field, 'ftype': ftype,
+                                         'initial': initial, 'attrs': [['null', 'true'], ['related_model', '"vapp.Alpha"']] +
+                                         ([['unique', 'false']] if ftype == 'OneToOneField' else [])}
     cases = [
+        # relation columns with a declared initial value (rows 1..6 exist)
+        [rel('boss', 'ForeignKey', '1')],
+        [rel('boss', 'ForeignKey', '2'), add('extra', '7'), cf('qty', '0', ('null', 'false'))],
         [add_sql('tag', 'CharField', "'n/a'", '"n/a"', ('max_length', '20')), cf('qty', '0', ('null', 'false'))],
         [add_sql('seq', 'IntegerField', '40 + 2', '42'), add('extra', '7'), cf('score', '-1', ('null', 'false'))],
         [cf('qty', '0', ('null', 'false')), add_sql('seq', 'IntegerField', '40 + 2', '42'),
